@@ -5,7 +5,9 @@
 From RU Require Import Base.Prelude Base.Utf8 Base.Utf8Facts Model.AsciiSet Gen.Tables Model.PercentEncoding
   Model.HostT Model.UrlRecord Model.Parser Model.Setters Model.WF
   Proofs.C14_Set Proofs.C14_Enc Proofs.C14_Views Proofs.ListN
-  Proofs.C05_Enc Proofs.C05_Parser Proofs.C05_Setters Proofs.C05_History Proofs.C05_Sharp Proofs.C05_Frag Proofs.C05_Query.
+  Proofs.C05_Enc Proofs.C05_Parser Proofs.C05_Setters Proofs.C05_History Proofs.C05_Sharp Proofs.C05_Frag Proofs.C05_Query
+  Proofs.C06_WFI Proofs.C06_FragQuery Proofs.C06_HostNone Proofs.C06_Host Proofs.C06_Path Proofs.C06_Main
+  Proofs.C05_Comp Proofs.C05_PathClean Proofs.C05_CompSteps Proofs.C05_CompHist.
 
 (* ================= 1. encoder alphabet ================= *)
 
@@ -202,10 +204,12 @@ Check C05_history : forall dbg hp hpo hd u,
   Reachable dbg hp hpo hd u -> Forall ok_or_space (ser u).
 Print Assumptions C05_history.
 
-(* what is not proved: the sharper invariant along histories (space only inside an opaque path after
-   setters), the per-component delimiter freedom of the stored slices of every REACHABLE Url (proved
-   above: fragment and query of parse results, fragment after set_fragment; not: userinfo and path
-   slices, and preservation of the fragment/query clauses by the other setters), and the host clause *)
+(* ================= 4. the component clauses along histories ================= *)
+(* The two statements below were written down first, for EVERY reachable Url.  Both are FALSE of the
+   model - and of the crate: Url::set_path on an opaque-path URL escapes only a '/' in the very first
+   position of its argument ("%2F"); TAB / LF / CR are dropped by the input iterator afterwards and the
+   rest goes through the opaque-path state, whose encode set keeps space, dquote, '<', '>', backtick,
+   '{', '}'.  Url::parse("a:b") then set_path("<TAB>/ y") gives "a:/ y": not cannot-be-a-base, path "/ y". *)
 Definition C05_history_sharp_statement : Prop :=
   forall dbg hp hpo hd u, HostOK hp hpo hd -> IpOK hd -> Reachable dbg hp hpo hd u -> sharp u.
 
@@ -219,6 +223,101 @@ Definition C05_components_statement : Prop :=
      forall d, In d [63; 35; 32; 34; 60; 62; 96; 123; 125] -> ~ In d p)
   /\ (forall q, query dbg u = Some (Some q) -> forall d, In d [35; 32; 34; 60; 62] -> ~ In d q)
   /\ (forall f, fragment dbg u = Some (Some f) -> forall d, In d [32; 34; 60; 62; 96] -> ~ In d f).
+
+Theorem C05_components_refuted : ~ C05_components_statement.
+Proof.
+  intros S. destruct no_host_ok as [H1 H2]. destruct cw_facts as (_ & _ & _ & C & P).
+  destruct (S true no_hp no_hp no_hd cw_end H1 H2 (cw_reachable true)) as (_ & _ & Hp & _).
+  apply (Hp C [47; 32; 121] P 32); [right; right; left; reflexivity | right; left; reflexivity].
+Qed.
+Check C05_components_refuted : ~ C05_components_statement.
+Print Assumptions C05_components_refuted.
+
+Theorem C05_history_sharp_refuted : ~ C05_history_sharp_statement.
+Proof.
+  intros S. destruct no_host_ok as [H1 H2].
+  exact (cw_not_sharp (S true no_hp no_hp no_hd cw_end H1 H2 (cw_reachable true))).
+Qed.
+Check C05_history_sharp_refuted : ~ C05_history_sharp_statement.
+Print Assumptions C05_history_sharp_refuted.
+
+(* the witness itself: reachable (parse "a:b", set_path [TAB; '/'; ' '; 'y']), well-formed, not
+   cannot-be-a-base, with a space in the stored path *)
+Theorem C05_components_witness : exists dbg hp hpo hd u,
+  HostOK hp hpo hd /\ IpOK hd /\ Reachable dbg hp hpo hd u /\ wf_b u = true
+  /\ cannot_be_a_base u = Some false /\ exists p, path u = Some p /\ In 32 p.
+Proof. exact components_refuted. Qed.
+Print Assumptions C05_components_witness.
+
+(* What IS proved.  The hierarchical path states (parse_path_start and everything below it: segments,
+   dot segments, drive letters, the file fix-up) in EVERY context - URL parser, Url::set_path,
+   path_segments_mut - and for ANY input numbers keep the text in front of the path and write no byte of
+   ? # space dquote < > backtick { } *)
+Theorem C05_path_states : forall dbg ctx st hh s0 l s1 hh' rem,
+  parse_path_start dbg ctx st hh s0 l = POk (s1, hh', rem) ->
+  exists P, s1 = s0 ++ P /\ forall d, In d [63; 35; 32; 34; 60; 62; 96; 123; 125] -> ~ In d P.
+Proof.
+  intros dbg ctx st hh s0 l s1 hh' rem H.
+  destruct (parse_path_start_clean dbg ctx st hh s0 l s1 hh' rem H) as (P & E & HP).
+  exists P. split; [exact E | exact (pq_free P HP)].
+Qed.
+Check C05_path_states : forall dbg ctx st hh s0 l s1 hh' rem,
+  parse_path_start dbg ctx st hh s0 l = POk (s1, hh', rem) ->
+  exists P, s1 = s0 ++ P /\ forall d, In d [63; 35; 32; 34; 60; 62; 96; 123; 125] -> ~ In d P.
+Print Assumptions C05_path_states.
+
+(* The clauses as an invariant.  components_clean dbg u = the five clauses of the statement above for the
+   record u.  CInv dbg u = wfh u (C06's invariant: wf_b + host_text_ok) /\ comp_ok dbg u, where comp_ok is
+   components_clean with the path clause in the form "a stored path that starts with '/' is free of
+   ? # space dquote < > backtick { }" (on a well-formed record this gives the clause of the text:
+   a path that is not opaque is empty or starts with '/').
+   step_gate hd u o u' (Proofs/C05_CompHist.v) excludes, by computable conditions on the two records and
+   the argument, exactly the known classes: set_host(None) with an empty path or a "//"-led path
+   (F-C06-5, F-C02-2), host setters on a marker URL or an empty new host over a stored port (F-C03-5,
+   F-C02-4), set_path with '?' / '#' into an opaque path (F-C02-3), a "//"-led result without marker or a
+   marker in front of a path that is not "//"-led (F-C02-8, F-C03-5), an opaque path that stops being
+   opaque (F-C06-6, the witness above); arguments are &str (usv_list) and u16.  NOT covered (gate False):
+   path_segments_mut sessions and the quirks setters set_host / set_hostname / set_port / set_pathname. *)
+Theorem C05_components_step : forall dbg hp hpo hd u o u',
+  CInv dbg u -> step_gate hd u o u' -> apply_op dbg hp hpo hd u o = Some u' ->
+  CInv dbg u' /\ components_clean dbg u'.
+Proof.
+  intros dbg hp hpo hd u o u' K G H. pose proof (cinv_step dbg hp hpo hd u o u' K G H) as K'.
+  split; [exact K'|]. destruct K' as [[W _] C]. exact (comp_ok_components dbg u' W C).
+Qed.
+Check C05_components_step : forall dbg hp hpo hd u o u',
+  CInv dbg u -> step_gate hd u o u' -> apply_op dbg hp hpo hd u o = Some u' ->
+  CInv dbg u' /\ components_clean dbg u'.
+Print Assumptions C05_components_step.
+
+(* along every history of gated steps (GHist: reflexive-transitive closure of gated apply_op steps) *)
+Theorem C05_components_history : forall dbg hp hpo hd u u',
+  GHist dbg hp hpo hd u u' -> CInv dbg u -> wfh u' /\ components_clean dbg u'.
+Proof. exact components_history. Qed.
+Check C05_components_history : forall dbg hp hpo hd u u',
+  GHist dbg hp hpo hd u u' -> CInv dbg u -> wfh u' /\ components_clean dbg u'.
+Print Assumptions C05_components_history.
+
+(* a start class with a computable recogniser: every parse result (no base, any encoding override, no
+   hypothesis on the host functions) of an input  scheme ":" rest  with a non-special scheme and rest not
+   starting with '/' (C02's opaque-input class) satisfies CInv *)
+Theorem C05_components_parse_opaque : forall dbg hp hpo hd ovr input u,
+  usv_list input -> opaque_start input = true ->
+  parse_url dbg hp hpo hd ovr None input = POk u -> CInv dbg u /\ cannot_be_a_base u = Some true.
+Proof. exact parse_opaque_cinv. Qed.
+Check C05_components_parse_opaque : forall dbg hp hpo hd ovr input u,
+  usv_list input -> opaque_start input = true ->
+  parse_url dbg hp hpo hd ovr None input = POk u -> CInv dbg u /\ cannot_be_a_base u = Some true.
+Print Assumptions C05_components_parse_opaque.
+
+(* what is still open: CInv for parse results outside the opaque-input class (needs C02's L1 = wf_b of
+   every parse result, and the userinfo / path clauses of the parser's own writes and of the slices copied
+   from a base; C05_path_states is the path half of the former), the steps with gate False, and the host
+   clause *)
+Definition C05_components_parse_statement : Prop :=
+  forall dbg hp hpo hd ovr base input u, HostOK hp hpo hd ->
+    match base with Some b => CInv dbg b | None => True end ->
+    parse_url dbg hp hpo hd ovr base input = POk u -> CInv dbg u.
 
 (* ================= non-vacuity ================= *)
 Definition ex_hp (s : list N) : result host := Ok (HDomain s).
@@ -252,4 +351,25 @@ Proof.
       rewrite forallb_forall in E; apply Forall_forall; intros x Hx; specialize (E x Hx); unfold okb, ok_byte in *; lia.
   - intros h Hh. destruct h; [destruct Hh | constructor | constructor].
   - eexists. vm_compute. split; reflexivity.
+Qed.
+
+(* the gated histories are inhabited: parse "a:b", set_path("x y") (opaque path, stays opaque),
+   set_query(Some "q r"), set_fragment(Some "f`") - every gate holds, the result is "a:x y?q%20r#f%60" *)
+Example C05_gated_history_inhabited :
+  exists u0 u3, parse_url true ex_hp ex_hp ex_hd None None [97; 58; 98] = POk u0
+    /\ opaque_start [97; 58; 98] = true
+    /\ GHist true ex_hp ex_hp ex_hd u0 u3
+    /\ ser u3 = [97; 58; 120; 32; 121; 63; 113; 37; 50; 48; 114; 35; 102; 37; 54; 48].
+Proof.
+  eexists. eexists. split; [vm_compute; reflexivity|]. split; [vm_compute; reflexivity|]. split.
+  - eapply (GH_step true ex_hp ex_hp ex_hd _ (OSetPath [120; 32; 121])); [ | vm_compute; reflexivity | ].
+    + cbn [step_gate]. split; [repeat constructor; unfold is_usv; lia|].
+      split; [intros H; vm_compute in H; discriminate|]. split; [intros _; vm_compute; reflexivity|].
+      vm_compute. reflexivity.
+    + eapply (GH_step true ex_hp ex_hp ex_hd _ (OSetQuery (Some [113; 32; 114]))); [ | vm_compute; reflexivity | ].
+      * cbn [step_gate str_arg_ok]. repeat constructor; unfold is_usv; lia.
+      * eapply (GH_step true ex_hp ex_hp ex_hd _ (OSetFragment (Some [102; 96]))); [ | vm_compute; reflexivity | ].
+        -- exact I.
+        -- apply GH_refl.
+  - vm_compute. reflexivity.
 Qed.
